@@ -5,6 +5,7 @@ import (
 	"bytes"
 	"crypto/rand"
 	"fmt"
+	"sync"
 	"testing"
 
 	"github.com/cloudflare/circl/oprf"
@@ -324,4 +325,128 @@ func TestExhaustiveBitFlips(t *testing.T) {
 			})
 		})
 	}
+}
+
+// TestOtherKeySizes: an issuer key of a size the token format cannot carry (the client is handed whatever key the
+// issuer publishes). Finalization may fail, but it may not succeed with a token that does not verify.
+func TestOtherKeySizes(t *testing.T) {
+	s := rt.S("other-key-sizes").SetRule("types 2 and 3 with an issuer RSA key of 1024, 3072 or 4096 bits (the token format carries a 256-byte authenticator): honest request, honest response, and a few transformed responses; oracle: finalization returns an error or a token that verifies under the pinned key and is bound to the request. non-trivial = every case; distinct by (key size, request)")
+	keys := gen.RSAOddKeys()
+	rt.Check(t, 12, 600, func(t *rapid.T) {
+		defer rt.Entropy(gen.Seed().Draw(t, "entropy"))()
+		key := gen.Pick(t, keys, "key")
+		chal, nonce := gen.Challenge().Draw(t, "challenge"), gen.Bytes32().Draw(t, "nonce")
+		typ := gen.Pick(t, []uint16{2, 3}, "type")
+		s.Eval()
+		s.Class(fmt.Sprintf("type%d/%d-bit", typ, key.N.BitLen()))
+		sess := &gen.Session{Type: typ, Challenge: chal, Nonces: [][]byte{nonce}, RKey: key}
+		var resp []byte
+		switch typ {
+		case 2:
+			iss := type2.NewBasicPublicIssuer(key)
+			sess.KeyID = iss.TokenKeyID()
+			st, err := type2.NewBasicPublicClient().CreateTokenRequest(chal, nonce, sess.KeyID, iss.TokenKey())
+			if err != nil {
+				s.Class("create-refused")
+				return
+			}
+			sess.RequestBytes = st.Request().Marshal()
+			sess.Finalize = func(r []byte) ([]tokens.Token, error) {
+				tk, err := st.FinalizeToken(r)
+				return []tokens.Token{tk}, err
+			}
+			var err2 error
+			if o := rt.GuardLite(func() { resp, err2 = iss.Evaluate(st.Request()) }); o.Panic != nil || err2 != nil {
+				s.Class("issuer-refused")
+				return
+			}
+		case 3:
+			iss := type3.NewRateLimitedIssuer(key)
+			_ = iss.AddOrigin("o.example")
+			sess.KeyID = iss.TokenKeyID()
+			st, err := type3.NewRateLimitedClientFromSecret([]byte{1, 2, 3}).CreateTokenRequest(chal, nonce, []byte{4, 5}, sess.KeyID, iss.TokenKey(), "o.example", iss.NameKey())
+			if err != nil {
+				s.Class("create-refused")
+				return
+			}
+			sess.RequestBytes = st.Request().Marshal()
+			sess.Finalize = func(r []byte) ([]tokens.Token, error) {
+				tk, err := st.FinalizeToken(r)
+				return []tokens.Token{tk}, err
+			}
+			var err2 error
+			if o := rt.GuardLite(func() { resp, _, err2 = iss.Evaluate(sess.RequestBytes) }); o.Panic != nil || err2 != nil {
+				s.Class("issuer-refused")
+				return
+			}
+		}
+		finalize(t, s, sess, resp, "honest-response-odd-key-size", false, nil)
+		for i := 0; i < 4; i++ {
+			r, class := gen.Mutate(t, resp, nil, []int{0, 1})
+			finalize(t, s, sess, r, "odd-key-size-mutate:"+class, false, resp)
+		}
+		s.Sample(func() any { return map[string]any{"type": typ, "key_bits": key.N.BitLen(), "response_len": len(resp)} })
+	})
+}
+
+// TestConcurrentFinalization: independent clients (own states, own honest responses) finalize at the same time. The
+// property is per call; calls that share nothing but the library's package-level state must each still satisfy it.
+func TestConcurrentFinalization(t *testing.T) {
+	s := rt.S("concurrent-finalization").SetRule("per case 8 goroutines, each with its own 6 request states of a drawn type and their honest responses (prepared sequentially), finalize them at the same time; oracle per call: an error (would be C01's business, also reported) or a token that verifies under the pinned key and is bound to its own request. non-trivial = every case; distinct by the first request's bytes")
+	rt.Check(t, 6, 400, func(t *rapid.T) {
+		const workers, rounds = 8, 6
+		type job struct {
+			sess *gen.Session
+			resp []byte
+		}
+		jobs := make([][]job, workers)
+		func() {
+			defer rt.Entropy(gen.Seed().Draw(t, "entropy"))()
+			typ := gen.Pick(t, []uint16{1, 1, 5, 2, 3}, "type")
+			s.Class(gen.TypeName(typ))
+			for w := 0; w < workers; w++ {
+				for r := 0; r < rounds; r++ {
+					sess, err := gen.NewSession(t, typ, gen.SessionOpts{RKeyIdx: -1, MaxBatch: 3})
+					if err != nil {
+						t.Fatalf("harness: %v", err)
+					}
+					resp, err := sess.IssueWire(sess.RequestBytes)
+					if err != nil {
+						t.Fatalf("harness: %v", err)
+					}
+					jobs[w] = append(jobs[w], job{sess, resp})
+				}
+			}
+		}()
+		s.Eval()
+		s.Nontrivial(jobs[0][0].sess.RequestBytes)
+		errs := make(chan error, workers*rounds)
+		start := make(chan struct{})
+		var wg sync.WaitGroup
+		for w := 0; w < workers; w++ {
+			wg.Add(1)
+			go func(w int) {
+				defer wg.Done()
+				<-start
+				for _, j := range jobs[w] {
+					toks, err := j.sess.Finalize(j.resp)
+					if err != nil {
+						errs <- fmt.Errorf("honest response rejected while other clients finalize concurrently: %v", err)
+						continue
+					}
+					if cerr := j.sess.CheckTokens(toks); cerr != nil {
+						errs <- fmt.Errorf("finalization returned no error but %v", cerr)
+					}
+				}
+			}(w)
+		}
+		close(start)
+		wg.Wait()
+		close(errs)
+		for err := range errs {
+			rt.Fail(t, "C02/concurrent-finalization", "%v", err)
+			return
+		}
+		s.Sample(func() any { return map[string]any{"workers": workers, "rounds": rounds, "type": jobs[0][0].sess.Type} })
+	})
 }
